@@ -324,6 +324,42 @@ def replay_file(path):
     """./check <id> --replay FILE : re-execute a stored counter-example against /repo's current tree."""
     from .contracts import REGISTRY
     doc = json.load(open(path))
+    pid = doc.get("property")
+    if "function" not in doc or str(doc.get("obligation", "")).startswith("bounded:") or doc.get("kind") == "bounded":
+        # file written by a bounded stand-in: re-run the stand-ins of the property against the current tree
+        res = bounded_results(pid, "quick", 0, REGISTRY)
+        lines = [v for b in res for v in b.get("violations", [])]
+        print("replay %s: bounded stand-ins of %s re-evaluated on the current tree: %s" % (
+            doc.get("obligation"), pid, "still failing" if lines else "no failure (not reproduced)"))
+        for v in lines:
+            print("  " + v)
+        if not lines and doc.get("failures"):
+            print("  recorded failures were: %s" % "; ".join(str(x) for x in doc["failures"][:3])[:600])
+        return 1 if lines else 0
+    if doc["function"] not in REGISTRY.contracts:
+        print("replay %s: no contract named %s is loaded" % (doc.get("obligation"), doc["function"]))
+        return 0
+    if not doc.get("model"):
+        # no counter-model was recorded (no-failing-input-found): re-verify the function and look at the same obligation
+        from .verify import verify_variant
+        c = REGISTRY.contracts[doc["function"]]
+        variant = doc.get("variant") if doc.get("variant") in c.variants else next(iter(c.variants))
+        r = verify_variant(c, variant, 20000)
+        obs = [o for o in r["obligations"] if o["name"] == doc["obligation"]]
+        bad = [o for o in r["obligations"] if o["status"] != "unsat"]
+        if r["status"] != "ok":
+            print("replay %s: the function is outside the verified subset on the current tree: %s" % (doc["obligation"], r["message"][:300]))
+            return 1
+        if obs and all(o["status"] == "unsat" for o in obs) and not bad:
+            print("replay %s: discharged on the current tree (not reproduced)" % doc["obligation"])
+            return 0
+        if not obs and not bad:
+            print("replay %s: all %d obligations of %s[%s] are discharged on the current tree (not reproduced)" % (
+                doc["obligation"], len(r["obligations"]), doc["function"], variant))
+            return 0
+        print("replay %s: still not discharged on the current tree (%s); recorded reason: %s" % (
+            doc["obligation"], ", ".join(sorted({"%s=%s" % (o["label"][:40], o["status"]) for o in (obs or bad)}))[:300], str(doc.get("detail"))[:300]))
+        return 1
     c = REGISTRY.contracts[doc["function"]]
     agg = dict(name=doc["obligation"], kind=doc["kind"], label=doc["label"], model=doc["model"], variant=doc["variant"], line=doc.get("source_line"))
     rep = replay_obligation(c, agg, doc["property"])
